@@ -1,0 +1,32 @@
+//go:build verif
+
+// Contracts for the verification machinery in /verif (comment-only; no declarations).
+//
+// C01 (QUIC reuses the TLS identity layer): an accepted connection reports the key that libp2ptls.PubKeyFromCertChain
+// extracted from that very QUIC connection's peer certificates and the peer ID derived from that key; a dialled
+// connection is established with the tls.Config specialised for the dialled peer (clauses on dialWithScope, whose
+// contract lives in verif_contracts.go and is tagged C10 C01).
+
+package libp2pquic
+
+//@ func (l *listener) wrapConnWithScope
+//@ prop C01
+//@ ensures result1 == nil ==> called(PubKeyFromCertChain, 0) && ret(PubKeyFromCertChain, 0, 1) == nil &&
+//@         arg(PubKeyFromCertChain, 0, 0) == ret(ConnectionState, 0, 0).TLS.PeerCertificates && arg(ConnectionState, 0, 0) == qconn
+//@ ensures result1 == nil ==> result0 != nil && fresh(result0) && result0.remotePubKey == ret(PubKeyFromCertChain, 0, 0) && result0.quicConn == qconn
+//@ ensures result1 == nil ==> nth(peer.IDFromPublicKey(result0.remotePubKey), 1) == nil && result0.remotePeerID == nth(peer.IDFromPublicKey(result0.remotePubKey), 0)
+//@ ensures result1 == nil ==> called(SetPeer, 0) && arg(SetPeer, 0, 0) == connScope && arg(SetPeer, 0, 1) == result0.remotePeerID && ret(SetPeer, 0, 0) == nil
+//@ ensures result1 != nil ==> result0 == nil
+//@ ensures forall x *listener :: !fresh(x) ==> x.transport == old(x.transport)
+//@ ensures forall x *transport :: !fresh(x) ==> x.gater == old(x.gater)
+//@ noframe
+
+//@ func (c *conn) RemotePeer
+//@ prop C01
+//@ ensures result == c.remotePeerID
+//@ modifies nothing
+
+//@ func (c *conn) RemotePublicKey
+//@ prop C01
+//@ ensures result == c.remotePubKey
+//@ modifies nothing
